@@ -314,6 +314,68 @@ pub fn check_rng(t: &mut Tally, seed: [u8; 16], n: usize) {
     t.ok(format!("rng len%16={} blocks%8={}", n % 16, (n / 16) % 8));
 }
 
+/// Successive requests on one generator. The generator buffers several blocks at a time, so the
+/// concatenation of successive requests is not the contiguous keystream; what a counter-mode generator
+/// guarantees is that no keystream block is handed out twice: every whole block of a request is the
+/// encryption of a counter value that no other whole block and no tail of the sequence comes from, and
+/// every tail (6+ bytes) is a word-aligned slice of a keystream block.
+pub fn check_rng_seq(t: &mut Tally, seed: [u8; 16], lens: &[usize]) {
+    let outs = pv::aes_rng_fill_seq(seed, lens);
+    let total: usize = lens.iter().sum();
+    let n_blocks = total / 16 + 24 * lens.len() + 32;
+    let ks = ctr_keystream(seed, n_blocks * 16);
+    let mut by_block: std::collections::HashMap<[u8; 16], usize> = std::collections::HashMap::with_capacity(n_blocks);
+    for c in 0..n_blocks {
+        by_block.insert(ks[c * 16..c * 16 + 16].try_into().unwrap(), c);
+    }
+    // 0 = unused, 1 = handed out as a whole block, 2 = source of a tail
+    let mut used = vec![0u8; n_blocks];
+    for (ri, (out, want_len)) in outs.iter().zip(lens).enumerate() {
+        if out.len() != *want_len {
+            t.bad(format!("AES generator returned {} bytes for a request of {} (request {} of a sequence)", out.len(), want_len, ri));
+            return;
+        }
+        let whole = out.len() / 16;
+        for b in 0..whole {
+            let blk: [u8; 16] = out[b * 16..b * 16 + 16].try_into().unwrap();
+            match by_block.get(&blk) {
+                None => {
+                    t.bad("AES generator: a block of a later request in a sequence is not a counter-mode keystream block".to_string());
+                    return;
+                }
+                Some(c) if used[*c] != 0 => {
+                    t.bad("AES generator: successive requests on one generator hand out the same keystream block twice (counter value reused)".to_string());
+                    return;
+                }
+                Some(c) => used[*c] = 1,
+            }
+        }
+        let tail = &out[whole * 16..];
+        if tail.len() >= 6 {
+            let mut src = None;
+            'find: for c in 0..n_blocks {
+                for off in (0..=16 - tail.len()).step_by(4) {
+                    if ks[c * 16 + off..c * 16 + off + tail.len()] == *tail {
+                        src = Some(c);
+                        break 'find;
+                    }
+                }
+            }
+            match src {
+                Some(c) if used[c] == 1 => {
+                    t.bad("AES generator: the tail of a request comes from a keystream block that was handed out as a whole block (counter value reused)".to_string());
+                    return;
+                }
+                Some(c) => used[c] = 2,
+                None => {
+                    // a tail may be assembled from two buffered blocks; not judged
+                }
+            }
+        }
+    }
+    t.ok(format!("rng sequence of {} requests, tails={}", lens.len().min(6), lens.iter().filter(|l| *l % 16 != 0).count().min(3)));
+}
+
 /// The complete comparison workload; `scale` 0 = tiny (Miri), 1 = quick, 2 = thorough.
 pub fn run_all(seed: u64, scale: u32) -> Tally {
     let mut t = Tally::default();
@@ -402,6 +464,13 @@ pub fn run_all(seed: u64, scale: u32) -> Tally {
         for n in [4096usize, 65_536, 100_003] {
             check_rng(&mut t, rng.block(), n);
         }
+    }
+    // generator: sequences of requests on one generator
+    let n_seq = match scale { 0 => 0, 1 => 300, _ => 3000 };
+    for k in 0..n_seq {
+        let n_req = 2 + (rng.next() % 5) as usize;
+        let lens: Vec<usize> = (0..n_req).map(|j| match (k + j) % 5 { 0 => 16 * (1 + (rng.next() % 12) as usize), 1 => 7 + (rng.next() % 200) as usize, 2 => 128 + (rng.next() % 40) as usize, 3 => 6 + (rng.next() % 10) as usize, _ => (rng.next() % 600) as usize }).collect();
+        check_rng_seq(&mut t, rng.block(), &lens);
     }
     t
 }
